@@ -14,28 +14,32 @@ import (
 // (chosen so that the property's mechanisms collide) and reports only its own oracle clauses.
 
 func c05NodeScenarios() []histParams {
-	ev := []string{"tx:T:R1", "tx:U1:D1", "tx:U1:D2", "tx:U1:R1", "tx:T:R3", "tx:U1:M1", "tx:U1:I1", "mine+:R1", "mine+:D2", "tick:250", "tick:2300", "restart"}
+	ev := []string{"tx:T:R1", "tx:U1:D1", "tx:U1:D2", "tx:U1:R1", "tx:T:R3", "tx:U1:M1", "tx:U1:M2", "tx:U1:I1", "mine+:R1", "mine+:D2", "tick:250", "tick:2300", "restart"}
 	return []histParams{{Prop: "C05", Cfg: txCfg(1), Boot: "synced", Events: ev, Tx: true}}
 }
 
 func c06Scenarios() []histParams {
-	ev := []string{"tx:T:R1", "tx:U1:I1", "tx:T:R3", "tx:U1:D1", "tx:U1:D2", "mine+:D1", "mine+:D2", "mine+:M1", "mine+:D1,I2", "mine+:R1", "mine:D2", "ans", "tick:250", "tick:2300"}
+	ev := []string{"tx:T:R1", "tx:U1:I1", "tx:T:R3", "tx:U1:D1", "tx:U1:D2", "inv:U1:D1", "inv:T:D2", "mine+:D1", "mine+:D2", "mine+:M1", "mine+:D1,I2", "mine+:R1", "mine:D2", "ans", "tick:250", "tick:2300"}
 	return []histParams{{Prop: "C06", Cfg: txCfg(1), Boot: "synced", Events: ev, Tx: true}}
 }
 
 func c07Scenarios() []histParams {
-	ev := []string{"tx:U1:R1", "inv:T:R1", "tx:T:R1", "ans", "tx:U1:D1", "tx:T:R3", "local:R3", "tick:100", "tick:1900", "tick:2300", "mine+:R1", "mine+:", "restart"}
+	ev := []string{"tx:U1:R1", "inv:T:R1", "tx:T:R1", "ans", "tx:U1:D1", "tx:T:R3", "tx:U1:M2", "local:R3", "tick:100", "tick:1900", "tick:2300", "mine+:R1", "mine+:", "restart"}
 	return []histParams{{Prop: "C07", Cfg: txCfg(1), Boot: "synced", Events: ev, Tx: true, Live: true}}
 }
 
 func c11Scenarios() []histParams {
 	ev := []string{"tx:T:R1", "tx:U1:R1", "tx:U1:D1", "inv:T:R1", "ans", "tick:2300", "restart", "restart:raw", "mine+:R1", "mine+:", "settle"}
-	return []histParams{{Prop: "C11", Cfg: txCfg(1), Boot: "synced", Events: ev, Tx: true}}
+	deep := []string{"tx:T:R1", "tx:U1:D1", "tick:2300", "restart", "mine+:R1", "mine+:"}
+	return []histParams{{Prop: "C11", Cfg: txCfg(1), Boot: "synced", Events: ev, Tx: true},
+		{Prop: "C11", Cfg: txCfg(1), Boot: "synced", Events: deep, Tx: true, ExtraDepth: 2}}
 }
 
 func c14Scenarios() []histParams {
-	ev := []string{"inv:T:R1", "inv:U1:R1", "inv:U2:R1", "inv:T:R1,R3", "inv:U1:R3", "ans", "uans:U1", "uans:U2", "uping:U1", "uping:U2", "ping", "tick:1000", "tick:3100", "mine+:R1"}
-	return []histParams{{Prop: "C14", Cfg: txCfg(2), Boot: "synced", Events: ev, Tx: true}}
+	ev := []string{"inv:T:R1", "inv:U1:R1", "inv:U2:R1", "inv:T:R1,R3", "inv:U1:R3", "ans", "uans:U1", "uans:U2", "uping:U1", "uping:U2", "ping", "tick:1000", "tick:3100", "mine+:R1", "reorgmine:1:R1", "settle"}
+	deep := []string{"inv:T:R1", "inv:U1:R1", "reorgmine:1:R1", "settle", "tick:3100", "uping:U1", "mine+:R1", "ans"}
+	return []histParams{{Prop: "C14", Cfg: txCfg(2), Boot: "synced", Events: ev, Tx: true},
+		{Prop: "C14", Cfg: txCfg(1), Boot: "synced", Events: deep, Tx: true, ExtraDepth: 2}}
 }
 
 func regHist(prop string, sc func() []histParams, depthQ, depthT int, rule string, accept func(core.Violation) bool) {
